@@ -531,26 +531,17 @@ def gradp_class(g, p):
         return "exact"
     if not _finite(*g):
         return "toleranced"
-    terms_exact = True
-    if p in (1, 2, 0.5, -1):
-        rounded = True
-    else:
-        rounded = False
-    if float(p) == int(p) and 1 <= p <= 8:
-        tot = Fraction(0)
-        for x in g:
-            t = abs(Fraction(x)) ** int(p)
-            tot += t
-            try:
-                if Fraction(float(t)) != t or Fraction(float(tot)) != tot:
-                    terms_exact = False
-            except OverflowError:
-                terms_exact = False
-    else:
-        terms_exact = False
-    if terms_exact:
+    # numpy's array power is a SIMD routine (not libm) except for the fast paths square / identity / sqrt / reciprocal,
+    # and sums of 8 or more terms are pairwise: bit-exact only with correctly rounded elementwise operations and a
+    # sequential sum (<= 7 terms), or when everything is a small integer (every power and every partial sum, in any
+    # order, is exact)
+    ints = all(float(x).is_integer() for x in g)
+    small = False
+    if ints and float(p) == int(p) and 1 <= p <= 8:
+        small = sum(abs(Fraction(x)) ** int(p) for x in g) < 2 ** 53
+    if p in (1, 2, 0.5, -1) and len(g) <= 7:
         return "exact"
-    if rounded and len(g) <= 7:
+    if small:
         return "exact"
     return "toleranced"
 
